@@ -43,8 +43,21 @@ class Unit:
         from .core import TIME_AXIOMS
         to = timeout_ms or self.timeout_ms
         agg = solve.discharge(obs, list(axioms) + TIME_AXIOMS, to, shard=shard if self.shards > 1 else None, retries=2 if to >= 30000 else 1)
-        return {'agg': agg, 'paths': len(obs), 'symexec_s': t1 - t0, 'solve_s': time.time() - t1, 'sha': eng.src.sha,
-                'sample': _sample(obs)}
+        out = {'agg': agg, 'paths': len(obs), 'symexec_s': t1 - t0, 'solve_s': time.time() - t1, 'sha': eng.src.sha, 'sample': _sample(obs)}
+        n_x = int(os.environ.get('VERIF_XCHECK', '0'))
+        if n_x and (self.shards == 1 or shard[0] == 0):
+            # second-solver cross-check (thorough tier): a deterministic sample of the discharged path queries is given to cvc5; `sat` there would
+            # mean that z3 and cvc5 disagree on the same text - the unit is then reported undecided
+            from z3 import Solver, Not
+            cand = [o for o in obs if o[2] is not None and agg.get(o[0], {}).get('status') == 'proved']
+            step = max(1, len(cand) // n_x); res = {'queries': 0, 'unsat': 0, 'unknown': 0, 'sat': 0, 'error': 0}
+            for (name, hyps, goal, detail) in cand[::step][:n_x]:
+                s = Solver(); s.add(*(list(axioms) + TIME_AXIOMS)); s.add(*hyps); s.add(Not(goal))
+                r = solve.cvc5_check(s, timeout_s=10)
+                res['queries'] += 1; res[r if r in res else 'error'] += 1
+                if r == 'sat': res.setdefault('disagreements', []).append(name)
+            out['xcheck'] = res
+        return out
 
 
 def _sample(obs):
@@ -125,6 +138,8 @@ def run_units(units, timeout_ms=None, procs=None):
             res.update({'undecided': und[0], 'obligations': {}, 'paths': 0, 'trace': next((p.get('trace') for p in parts if p.get('trace')), None)})
         else:
             agg = solve.merge([p['agg'] for p in parts]) if u.shards > 1 else parts[0]['agg']
+            xc = next((p['xcheck'] for p in parts if p.get('xcheck')), None)
+            if xc: res['xcheck'] = xc
             res.update({'obligations': agg, 'paths': parts[0]['paths'], 'symexec_s': round(max(p['symexec_s'] for p in parts), 3),
                         'solve_s': round(sum(p.get('solve_s', 0) for p in parts), 3), 'sha': parts[0].get('sha'), 'sample': parts[0].get('sample')})
         out[u.name] = res
